@@ -2,9 +2,48 @@
    case = (operation, what the broker saw on the operation's channel after it:
            None = the call panicked and nothing was sent; Some ms = the methods, in order,
            whether anything appeared on any OTHER channel, whether the call failed) *)
-From Amq Require Export Lib.Base Model.ApiTable Spec.Api.
+From Amq Require Export Lib.Base Model.ApiTable Spec.Api Model.Method.
 
-Definition case := (api_op * option (list meth) * bool * bool)%type.
+(* ... and the raw method payloads behind `Some ms`, byte for byte as the client wrote them,
+   with the encoded form of the argument tables of the pool (id, bytes without the length) *)
+Definition case := (api_op * option (list meth) * bool * bool * list bytes * list (N * bytes))%type.
+
+(* the server's reading of the bytes (Model/Method.v: decode (encode m) = m, C12_wire_roundtrip),
+   in the vocabulary of the API table *)
+Fixpoint table_id (dict : list (N * bytes)) (raw : bytes) : N :=
+  match dict with
+  | [] => 999
+  | (id, b) :: d => if bytes_eqb b raw then id else table_id d raw
+  end.
+Definition abs_field (dict : list (N * bytes)) (f : field) : list fval :=
+  match f with
+  | FNum _ n => [VNum n]
+  | FShortStr s | FLongStr s => [VStr s]
+  | FTable raw => [VTab (table_id dict raw)]
+  | FBits bs => map VBool bs
+  end.
+Definition read_payload (dict : list (N * bytes)) (p : bytes) : option meth :=
+  match dec_method p with
+  | Some (c, m, fs) => Some (c, m, flat_map (abs_field dict) fs)
+  | None => None
+  end.
+Fixpoint read_all (dict : list (N * bytes)) (ps : list bytes) : option (list meth) :=
+  match ps with
+  | [] => Some []
+  | p :: ps' => match read_payload dict p, read_all dict ps' with
+                | Some m, Some ms => Some (m :: ms)
+                | _, _ => None
+                end
+  end.
+(* what the broker saw, as read from the bytes inside Coq: None when the call sent nothing
+   because it panicked; a payload that does not read as a method of the table is reported as
+   the impossible method (0, 0, []) so that it can equal nothing *)
+Definition wire_obs (c : case) : option (list meth) :=
+  let '(_, obs, _, _, raws, dict) := c in
+  match obs with
+  | None => None
+  | Some _ => match read_all dict raws with Some ms => Some ms | None => Some [(0, 0, [])] end
+  end.
 
 Definition fval_eqb (a b : fval) : bool :=
   match a, b with
@@ -20,15 +59,19 @@ Definition meth_eqb (a b : meth) : bool :=
 
 Definition obs_eqb (a b : option (list meth)) : bool := option_eqb (list_eqb meth_eqb) a b.
 
-Definition model_out (c : case) : option (list meth) := let '(o, _, _, _) := c in emit o.
+Definition model_out (c : case) : option (list meth) := let '(o, _, _, _, _, _) := c in emit o.
 
+(* the model's methods are what the bytes read as - and the harness's own decoder (kept as a
+   cross-check of the two readings) saw the same *)
 Definition model_agrees (c : case) : bool :=
-  let '(o, obs, other, failed) := c in obs_eqb (emit o) obs && negb other && negb failed.
+  let '(o, obs, other, failed, _, _) := c in
+  obs_eqb (emit o) (wire_obs c) && obs_eqb obs (wire_obs c) && negb other && negb failed.
 
 (* the documentation table: exactly the method it gives, on the right channel, once; or
    nothing at all (a panic, or an Ok that sends nothing) where it says nothing is sent *)
 Definition oracle_ok (c : case) : bool :=
-  let '(o, obs, other, failed) := c in
+  let '(o, _, other, failed, _, _) := c in
+  let obs := wire_obs c in
   negb other &&
   match documented o, obs with
   | Some m, Some ms => list_eqb meth_eqb ms [wire m] && negb failed
